@@ -261,6 +261,17 @@ def _dedup_site_1(fn: Function, label: str, seen_hint: str, rep) -> None:
                     if any(isinstance(x, ast.Break) for x in free_branch):
                         cands.append((n, m[0], m[1], "break"))
                         break
+    # fourth spelling: X = next(c for c in (<candidates over itertools.count()>) if c not in S)
+    for n in own_nodes(fn.node):
+        if isinstance(n, ast.Assign) and len(n.targets) == 1 and isinstance(n.targets[0], ast.Name) and isinstance(n.value, ast.Call) \
+                and isinstance(n.value.func, ast.Name) and n.value.func.id == "next" and n.value.args:
+            g = L.inline(n.value.args[0], stop=tuple(L.params))
+            if isinstance(g, ast.GeneratorExp) and any("count(" in norm(L.inline(gen.iter, stop=tuple(L.params))) for gen in g.generators):
+                for gen in g.generators:
+                    for cond in gen.ifs:
+                        m = _membership(cond)
+                        if m is not None and not m[2]:
+                            cands.append((n, n.targets[0], m[1], "next"))
     cands.sort(key=lambda c: c[0].lineno)
     k = _ORDINAL.get(label, 0)
     if len(cands) <= k:
@@ -282,11 +293,12 @@ def _dedup_site_1(fn: Function, label: str, seen_hint: str, rep) -> None:
     names = [x.id for x in ast.walk(left) if isinstance(x, ast.Name) and x.id in L.defs]
     tested = names[0] if names else None
     # (ii) the loop body reassigns the tested name
-    reassigned = tested is not None and any(isinstance(n, (ast.Assign, ast.AugAssign)) and any(
+    reassigned = exit_kind == "next" or tested is not None and any(isinstance(n, (ast.Assign, ast.AugAssign)) and any(
         isinstance(x, ast.Name) and x.id == tested for x in (n.targets if isinstance(n, ast.Assign) else [n.target])) for n in ast.walk(w))
     # (iii) after the loop the final name is recorded in the accumulating collection
     cfg = CFG(fn.node)
-    wn = [n.id for n in cfg.nodes if n.kind == "test" and n.stmt is w] if exit_kind == "test" else [n.id for n in cfg.nodes if n.kind in ("test", "iter") and n.stmt is w]
+    wn = [n.id for n in cfg.nodes if n.kind == "test" and n.stmt is w] if exit_kind == "test" else [n.id for n in cfg.nodes if n.kind == "stmt" and n.ast is w and not n.copy] \
+        if exit_kind == "next" else [n.id for n in cfg.nodes if n.kind in ("test", "iter") and n.stmt is w]
     rec_nodes = set()
     rec_args = []
     for n in cfg.nodes:
@@ -306,6 +318,8 @@ def _dedup_site_1(fn: Function, label: str, seen_hint: str, rep) -> None:
     if wn and rec_nodes:
         if exit_kind == "test":
             exits = [m for m, lab in cfg.succ[wn[0]] if lab == "false"]
+        elif exit_kind == "next":
+            exits = [m for m, lab in cfg.succ[wn[0]] if lab != "exc"]
         else:
             inside_w = {id(x) for x in ast.walk(w)}
             brk = [n for n in cfg.nodes if isinstance(n.ast, ast.Break) and id(n.ast) in inside_w and not any(
